@@ -3132,6 +3132,11 @@ impl<K, V, S> HashMap<K, V, S> {
     pub fn verif_dump(&self, mut id: impl FnMut(&K, &V) -> u64) -> crate::verif::Dump {
         self.table.verif_dump(|kv| id(&kv.0, &kv.1))
     }
+
+    /// Verification hook: O(1) summary of the backing tables.
+    pub fn verif_stats(&self) -> crate::verif::Stats {
+        self.table.verif_stats()
+    }
 }
 
 #[allow(dead_code)]
